@@ -978,8 +978,15 @@ impl MultiTemplate {
         // Verify that the outer-most braces close at the very end and that the
         // brace nesting never returns to zero before the last char.
         let mut depth = 0u32;
+        let mut escaped = false;
         for ch in template[1..template.len() - 1].chars() {
+            if escaped {
+                // Escaped character: argument text, not nesting.
+                escaped = false;
+                continue;
+            }
             match ch {
+                '\\' => escaped = true,
                 '{' => depth += 1,
                 '}' => {
                     if depth == 0 {
@@ -992,7 +999,7 @@ impl MultiTemplate {
             }
         }
 
-        if depth != 0 {
+        if depth != 0 || escaped {
             // Unbalanced braces – fall back to full parser for proper error.
             return Ok(None);
         }
